@@ -24,7 +24,9 @@ META = dict(
          "renegotiation so that H != session id) run; for every cipher switch the key and IV handed to _get_engine "
          "and the MAC key handed to set_*_cipher are compared with the oracle value for the RFC letter of that slot "
          "(A/B IV, C/D key, E/F MAC), client-out must equal server-in and vice versa, and the two directions of one "
-         "transport must not share a key, IV or MAC key. Holds on the executions produced.",
+         "transport must not share a key, IV or MAC key. Point of use: every byte the peers put on the link (and every bench "
+         "stream) is re-parsed offline by an independent decoder keyed per key epoch with reference-derived key, initial IV "
+         "and MAC key (AES-GCM kept over 1-3 re-keys: counter restarts from the new IV). Holds on the executions produced.",
     note="K = 0 is not drawn: no kex method can produce it (its mpint encoding is C39's subject). Trusts hashlib.",
     rule="case = one _compute_key call (hash, K, H, sid, letter, length) or one key epoch of a bench/handshake "
          "(suite, role, kex); distinct = hash of those inputs",
@@ -244,6 +246,23 @@ def bench_case(ctx, rng, cipher, mac, role, n_epochs, k=0):
                                       (rx_in, not srv, "in", cipher, mac), (rx_out, not srv, "out", rcipher, rmac)):
         for inst in lst:
             judge_installed(ctx, inst, is_server, d, wit, m_, cipher_expected=c_)
+    # point of use: the sender's bytes must decode under reference-derived key / IV / MAC key of every epoch
+    fam = pb.framing_mode(cipher, mac)
+    if fam is not None:
+        try:
+            facts = pb.RefRx(b.wire(), b.ref_epochs(captured=False), "none", b.spec["strict"]).all()
+            bad = [f["payload"] for f in facts] != b.messages or not all(f.get("mac_ok", True) for f in facts)
+            at = next((f["epoch"] for f in facts if not f.get("mac_ok", True)), 0)
+        except pb.RefError as e:
+            bad, at = True, None
+            wit = dict(wit, reparse=str(e))
+        ctx.count("bench_wires_decrypted_with_derived_keys")
+        if bad:
+            ctx.violation("bytes on the wire do not decrypt/verify under the independently derived key, IV and MAC key "
+                          "(%s, bench)" % fam, "threadless bench sender, %d epochs" % n_epochs, dict(wit, key_epoch=at))
+        else:
+            ctx.count("first_packet_after_newkeys_verified_%s" % fam, n_epochs)
+            ctx.count("offline_epochs_after_rekey_%s" % fam, n_epochs - 1)
     judge_pairing(ctx, [slots_of(x) for x in tx_out], [slots_of(x) for x in rx_in], "bench forward", wit)
     judge_pairing(ctx, [slots_of(x) for x in rx_out], [slots_of(x) for x in tx_in], "bench reverse", wit)
     judge_directions(ctx, [slots_of(x) for x in tx_out], [slots_of(x) for x in tx_in], "bench sender", wit)
@@ -326,8 +345,10 @@ def asym_handshake_case(ctx, rng, plan, kex):
         cc.settimeout(60)
         sc.settimeout(60)
         ok = echo(cc, sc, rng.choice([1, 33, 700, 9000])) and echo(sc, cc, rng.choice([1, 33, 700, 9000]))
-        (P.tc if rng.random() < 0.5 else P.ts).renegotiate_keys()
-        ok = ok and echo(cc, sc, rng.choice([1, 33, 700])) and echo(sc, cc, rng.choice([1, 33, 700]))
+        n_rekeys = rng.randint(1, 3) if "gcm" in (ka, kb) else 1
+        for _ in range(n_rekeys):
+            (P.tc if rng.random() < 0.5 else P.ts).renegotiate_keys()
+            ok = ok and echo(cc, sc, rng.choice([1, 33, 700])) and echo(sc, cc, rng.choice([1, 33, 700]))
         if not ok:
             errs = readerrs()
             ctx.violation("asymmetric session does not carry the data sent (c2s %s, s2c %s)" % (fam_c2s, fam_s2c),
@@ -339,7 +360,7 @@ def asym_handshake_case(ctx, rng, plan, kex):
             ev = P.rec.snapshot()
             return [pb.installed_epochs(klog, ev, s_, d) for s_ in "cs" for d in ("out", "in")]
 
-        if not vpair.wait_for(lambda: all(len(x) >= 2 for x in captured()), timeout=60):
+        if not vpair.wait_for(lambda: all(len(x) >= 1 + n_rekeys for x in captured()), timeout=60):
             return abandoned("key capture incomplete %s" % [len(x) for x in captured()])
         c_out, c_in, s_out, s_in = captured()
         ctx.count("asym_handshakes_observed")
@@ -355,10 +376,61 @@ def asym_handshake_case(ctx, rng, plan, kex):
         judge_pairing(ctx, [slots_of(x) for x in s_out], [slots_of(x) for x in c_in], "server->client", wit)
         judge_directions(ctx, [slots_of(x) for x in c_out], [slots_of(x) for x in c_in], "client", wit)
         judge_directions(ctx, [slots_of(x) for x in s_out], [slots_of(x) for x in s_in], "server", wit)
+        P.wait_quiet(idle=0.15, timeout=30)
+        offline_wire_check(ctx, P, captured(), asym, wit)
     except Exception as e:
         abandoned("harness: %r" % (e,))
     finally:
         P.close()
+
+
+def offline_wire_check(ctx, P, captured, names, wit):
+    """What the packetizers actually USE: every byte each peer put on the link is re-parsed offline by the
+    independent decoder keyed, per key epoch, with key + initial IV + MAC key derived by the reference KDF from the
+    (K, H, session id) of THAT exchange (AEAD invocation counter restarting from the new IV)."""
+    c_out, c_in, s_out, s_in = captured
+    strict = bool(P.tc.agreed_on_strict_kex)
+    for label, direction, log, outs, cn, mn in (
+            ("client->server", "c2s", list(P.link.ab.log), c_out, names["c2s_cipher"], names["c2s_mac"]),
+            ("server->client", "s2c", list(P.link.ba.log), s_out, names["s2c_cipher"], names["s2c_mac"])):
+        fam = pb.framing_mode(cn, mn)
+        if fam is None:
+            ctx.count("offline_directions_not_judged")
+            continue
+        stream = b"".join(log)
+        stream = stream[stream.find(b"\n") + 1:]  # identification line
+        epochs = []
+        for inst in outs:
+            inp = epoch_inputs(inst)
+            if inp is None:
+                break
+            hname, K, H, sid = inp
+            epochs.append(dict(cipher=cn, mac=mn, **pb.ref_keys(hname, K, H, sid, cn, mn, direction)))
+        rx = pb.RefRx(stream, epochs, "none", strict)
+        facts, err = [], None
+        try:
+            while not rx.done():
+                facts.append(rx.next())
+        except pb.RefError as e:
+            err = e
+        if err is not None and "without a further key epoch" in str(err):
+            ctx.count("offline_directions_not_judged")  # a key switch newer than the capture
+            continue
+        ctx.count("offline_directions_decrypted")
+        ctx.count("offline_packets_decrypted", len(facts))
+        w = dict(wit, direction=label, cipher=cn, mac=mn, epochs=len(epochs), packets_ok=len(facts))
+        bad = err is not None or not all(f.get("mac_ok", True) for f in facts)
+        if bad:
+            at = rx.n_epoch if err is not None else next(f["epoch"] for f in facts if not f.get("mac_ok", True))
+            ctx.violation("bytes on the wire do not decrypt/verify under the independently derived key, IV and MAC key "
+                          "(%s, %s)" % (fam, "initial exchange" if at <= 1 else "after a re-key"),
+                          "%s: %s" % (label, err if err is not None else "MAC mismatch"), dict(w, key_epoch=at))
+            continue
+        for e in range(1, len(epochs) + 1):
+            if any(f["epoch"] == e for f in facts):
+                ctx.count("first_packet_after_newkeys_verified_%s" % fam)
+                if e >= 2:
+                    ctx.count("offline_epochs_after_rekey_%s" % fam)
 
 
 KEXES = ["curve25519-sha256@libssh.org", "ecdh-sha2-nistp256", "ecdh-sha2-nistp384", "ecdh-sha2-nistp521",
@@ -386,10 +458,18 @@ def handshake_case(ctx, rng, cipher, mac, kex, rekey):
             ctx.note("handshake_abandoned_reason", "%s %s %s: %r / %r" % (kex, cipher, mac, P.client_exc, P.server_exc))
             return
         want = 1
+        P.tc.send_ignore()
+        P.ts.send_ignore()
         if rekey:
             P.auth()
-            (P.tc if rng.random() < 0.5 else P.ts).renegotiate_keys()
-            want = 2
+            # AES-GCM kept in a direction over 1-3 re-keys; other suites one re-key
+            for _ in range(rng.randint(1, 3) if "gcm" in cipher else 1):
+                (P.tc if rng.random() < 0.5 else P.ts).renegotiate_keys()
+                want += 1
+                vpair.wait_for(lambda: not P.tc.in_kex and not P.ts.in_kex, timeout=30)
+                P.tc.send_ignore()
+                P.ts.send_ignore()
+            P.wait_quiet(idle=0.15, timeout=30)
 
         def captured():
             ev = P.rec.snapshot()
@@ -414,6 +494,8 @@ def handshake_case(ctx, rng, cipher, mac, kex, rekey):
         judge_pairing(ctx, [slots_of(x) for x in s_out], [slots_of(x) for x in c_in], "server->client", wit)
         judge_directions(ctx, [slots_of(x) for x in c_out], [slots_of(x) for x in c_in], "client", wit)
         judge_directions(ctx, [slots_of(x) for x in s_out], [slots_of(x) for x in s_in], "server", wit)
+        P.wait_quiet(idle=0.15, timeout=30)
+        offline_wire_check(ctx, P, captured(), dict(c2s_cipher=cipher, s2c_cipher=cipher, c2s_mac=mac, s2c_mac=mac), wit)
     except Exception as e:
         ctx.count("handshakes_abandoned")
         ctx.note("handshake_abandoned_reason", "harness (%s %s %s): %r" % (kex, cipher, mac, e))
@@ -472,6 +554,12 @@ def run(ctx):
                                                              s2c_cipher_kind=plan[1], c2s_mac_family=plan[2],
                                                              s2c_mac_family=plan[3], kex=kex) if k < 20 and rep == 0 else None)
             asym_handshake_case(ctx, rng, plan, kex)
+    ctx.require("offline_directions_decrypted", 120)
+    ctx.require("offline_packets_decrypted", 2000)
+    ctx.require("bench_wires_decrypted_with_derived_keys", 100)
+    for f in pb.FAMILIES:
+        ctx.require("first_packet_after_newkeys_verified_%s" % f, 40)
+        ctx.require("offline_epochs_after_rekey_%s" % f, 20)
     ctx.require("asym_handshakes_observed", 32)
     ctx.require("asym_sessions_carried_data_both_ways", 32)
     for fa in pb.FAMILIES:
